@@ -55,6 +55,7 @@ def _worker(task):
             res = explore(prog, item.name, contract_driver(prog, item, findings=fnd), timeout_ms=tmo,
                           max_paths=item.max_paths)
             out["target"] = item.target
+            out["replayable"] = getattr(item, "replayable", True)
             out["excluded_findings"] = [f.fid for f in fnd]
         for o in res.obligations:
             out["obligations"].append({"name": o.name, "status": o.status, "time": round(o.time, 4), "model": o.model,
@@ -114,7 +115,7 @@ def native_replay(replay_path, repo):
     env["PYTHONDONTWRITEBYTECODE"] = "1"
     try:
         p = subprocess.run([NATIVE_PY, "-m", "pyvc.replay_native", replay_path, "--repo", repo],
-                           capture_output=True, text=True, timeout=300, env=env, cwd=VERIF)
+                           capture_output=True, text=True, timeout=120, env=env, cwd=VERIF)
     except subprocess.TimeoutExpired:
         return {"reproduced": False, "error": "native replay timed out"}
     try:
@@ -216,7 +217,7 @@ def main(argv=None):
         for o in r["obligations"]:
             d = ob.setdefault(o["name"], {"status": "unsat", "time": 0.0, "instances": 0, "item": r["item"],
                                           "module": r["module"], "sat": [], "solver": set(), "kind": r["kind"],
-                                          "expect_sat": r.get("expect_sat", False)})
+                                          "expect_sat": r.get("expect_sat", False), "replayable": r.get("replayable", True)})
             d["instances"] += 1
             d["time"] += o["time"]
             d["solver"].add(o["solver"])
@@ -265,6 +266,13 @@ def main(argv=None):
             tag = "" if nr.get("reproduced") else " no-failing-input-found"
             violations.append(name)
             vio_lines.append("VIOLATION property=%s replay=%s%s" % (args.prop, rel, tag))
+            continue
+        if not d["replayable"]:
+            payload["native"] = {"reproduced": False, "skipped": "callees abstracted by contract: the counter-model has no native run"}
+            with open(rp, "w") as f:
+                json.dump(payload, f, indent=1, default=str)
+            violations.append(name)
+            vio_lines.append("VIOLATION property=%s replay=%s no-failing-input-found" % (args.prop, rel))
             continue
         nr = native_replay(rp, repo)
         payload["native"] = nr
